@@ -51,6 +51,13 @@ type Cfg struct {
 	AddrEnable   map[string]int64 `json:"addrEnable"`
 	CryptoEnable map[string]int64 `json:"cryptoEnable"`
 	Forks        map[string]int64 `json:"forks"`
+	DelayTxs     map[string]Delay `json:"delayTxs"` // chain state read by btcscript: delayed tx hash -> commit record
+}
+
+// Delay is the commit record of a delayed transaction (none executor): begin height, or begin block time when > 0.
+type Delay struct {
+	Height int64 `json:"h"`
+	Time   int64 `json:"t"`
 }
 
 // Query is one validity question. Subj is the cache key the input may occupy (address string or public key).
@@ -165,6 +172,9 @@ type subject struct {
 	Fns   []string // functions applicable
 	Ins   []string // optional: variants of the input sharing the cache key (one is drawn per query)
 	Rel   []string // configuration entries whose height can change the answer for this input
+	// SigSubj, when set, is the cache key of checkSign queries (signature checks do not touch the pubkey->address
+	// caches, so transactions of one owner need not be kept apart in fresh batches)
+	SigSubj string
 }
 
 func genAddress(r *rand.Rand) subject {
@@ -246,10 +256,12 @@ func genPubkey(r *rand.Rand) subject {
 		Rel: []string{"fork:ForkFormatAddressKey"}}
 }
 
-var signTypes = map[string]int32{"secp256k1": 1, "ed25519": 2, "secp256k1eth": 260}
+var signTypes = map[string]int32{"secp256k1": 1, "ed25519": 2, "secp256k1eth": 260, "secp256r1": 257, "sm2": 258}
 
 func genTx(r *rand.Rand) subject {
-	name := []string{"secp256k1", "secp256k1", "ed25519", "secp256k1eth", "secp256k1eth"}[r.Intn(5)]
+	// secp256r1 and sm2 sign with crypto/rand: their transaction bytes are not reproducible from the seed (the replay
+	// file records them); the verdicts are
+	name := []string{"secp256k1", "secp256k1", "ed25519", "secp256k1eth", "secp256k1eth", "secp256r1", "sm2"}[r.Intn(7)]
 	priv := mustPriv(name, randBytes(r, 32))
 	addrID := int32([]int{0, 2, 2}[r.Intn(3)])
 	tx := &types.Transaction{Execer: []byte([]string{"none", "coins", "user.write"}[r.Intn(3)]), Payload: randBytes(r, 1+r.Intn(30)),
@@ -281,7 +293,7 @@ func pick(r *rand.Rand, zero, neg int, lo, hi int64) int64 {
 }
 
 func genCfg(r *rand.Rand) Cfg {
-	c := Cfg{AddrEnable: map[string]int64{}, CryptoEnable: map[string]int64{}, Forks: map[string]int64{}}
+	c := Cfg{AddrEnable: map[string]int64{}, CryptoEnable: map[string]int64{}, Forks: map[string]int64{}, DelayTxs: map[string]Delay{}}
 	c.AddrEnable["eth"] = pick(r, 1, 1, 20, 900)
 	if r.Intn(3) == 0 {
 		c.AddrEnable["btcMultiSign"] = pick(r, 3, 0, 20, 900)
@@ -291,6 +303,11 @@ func genCfg(r *rand.Rand) Cfg {
 	}
 	c.CryptoEnable["secp256k1eth"] = pick(r, 2, 1, 20, 900)
 	c.CryptoEnable["ed25519"] = pick(r, 3, 1, 20, 900)
+	for _, name := range []string{"btcscript", "sm2", "secp256r1"} {
+		if r.Intn(3) == 0 {
+			c.CryptoEnable[name] = pick(r, 2, 1, 20, 900)
+		}
+	}
 	c.Forks["ForkMultiSignAddress"] = pick(r, 2, 0, 20, 900)
 	c.Forks["ForkBase58AddressCheck"] = pick(r, 2, 0, 20, 900)
 	c.Forks["ForkFormatAddressKey"] = pick(r, 2, 0, 20, 900)
@@ -322,6 +339,11 @@ func (c Cfg) heights(fn string, rel []string) []int64 {
 	if rel != nil {
 		bs = nil
 		for _, k := range rel {
+			if strings.HasPrefix(k, "abs:") { // a boundary of the input itself (e.g. commit height + declared delay)
+				v, _ := strconv.ParseInt(k[4:], 10, 64)
+				bs = append(bs, v)
+				continue
+			}
 			m := map[string]map[string]int64{"addr": c.AddrEnable, "crypto": c.CryptoEnable, "fork": c.Forks}[k[:strings.IndexByte(k, ':')]]
 			if v := m[k[strings.IndexByte(k, ':')+1:]]; v > 0 {
 				bs = append(bs, v)
@@ -350,32 +372,39 @@ func (c Cfg) straddles(h1, h2 int64) bool {
 // genHistory: nSubj inputs, each asked 2..5 times (function and height vary), interleaved in random order.
 func genHistory(r *rand.Rand, cfg Cfg, nQueries int) (qs []Query, classes []string) {
 	for len(qs) < nQueries {
-		var s subject
-		switch x := r.Intn(10); {
-		case x < 5:
-			s = genAddress(r)
-		case x < 8:
-			s = genPubkey(r)
+		var subs []subject
+		switch x := r.Intn(20); {
+		case x < 9:
+			subs = []subject{genAddress(r)}
+		case x < 14:
+			subs = []subject{genPubkey(r)}
+		case x < 17:
+			subs = []subject{genTx(r)}
 		default:
-			s = genTx(r)
+			subs = genBtcFamily(r, cfg)
 		}
-		classes = append(classes, s.Class)
-		seen := map[string]bool{}
-		for i, n := 0, 2+r.Intn(4); i < n; i++ {
-			fn := s.Fns[r.Intn(len(s.Fns))]
-			rel := s.Rel // mostly heights around the boundaries that matter for this input, sometimes any boundary
-			if r.Intn(4) == 0 {
-				rel = nil
-			}
-			hs := cfg.heights(fn, rel)
-			in := s.In
-			if len(s.Ins) > 0 {
-				in = s.Ins[r.Intn(len(s.Ins))]
-			}
-			q := Query{Fn: fn, In: in, H: hs[r.Intn(len(hs))], Subj: s.Subj}
-			if !seen[q.key()] {
-				seen[q.key()] = true
-				qs = append(qs, q)
+		for _, s := range subs {
+			classes = append(classes, s.Class)
+			seen := map[string]bool{}
+			for i, n := 0, 2+r.Intn(4); i < n; i++ {
+				fn := s.Fns[r.Intn(len(s.Fns))]
+				rel := s.Rel // mostly heights around the boundaries that matter for this input, sometimes any boundary
+				if r.Intn(4) == 0 {
+					rel = nil
+				}
+				hs := cfg.heights(fn, rel)
+				in := s.In
+				if len(s.Ins) > 0 {
+					in = s.Ins[r.Intn(len(s.Ins))]
+				}
+				q := Query{Fn: fn, In: in, H: hs[r.Intn(len(hs))], Subj: s.Subj}
+				if fn == "checkSign" && s.SigSubj != "" {
+					q.Subj = s.SigSubj
+				}
+				if !seen[q.key()] {
+					seen[q.key()] = true
+					qs = append(qs, q)
+				}
 			}
 		}
 	}
@@ -474,6 +503,13 @@ func compatSet(cfg Cfg, fn string, h int64, under map[string]bool) map[string]bo
 	return out
 }
 
+// isStructuredSig: the transaction is signed with a driver whose signature is a structured message (btcscript).
+func isStructuredSig(txHex string) bool {
+	b, _ := hex.DecodeString(txHex)
+	var tx types.Transaction
+	return types.Decode(b, &tx) == nil && types.ExtractCryptoID(tx.GetSignature().GetTy()) == 11
+}
+
 func isAddrFn(fn string) bool { return fn == "addrCheck" || fn == "dappCheck" }
 
 func isEthFormat(q Query) bool {
@@ -533,8 +569,14 @@ func (g *group) checkFresh(t *testing.T, qs []Query) {
 			lib.ExcludedKnown(idOrder)
 			continue
 		}
-		lib.Violation(t, prop, "TestGenHistories", map[string]interface{}{"cfg": g.cfg, "query": q, "fresh_answers": as, "driver_verdicts": g.drv[q.In]},
-			"%s(%q, h=%d): %d fresh processes with the same configuration disagree: %v", q.Fn, q.In, q.H, len(as), as)
+		// diagnosis: what do processes say that answer this query and nothing else?
+		alone := []string{ask(g.cfg, []Query{q})[0], ask(g.cfg, []Query{q})[0], ask(g.cfg, []Query{q})[0]}
+		why := "single-query processes disagree as well: the answer is not a function of input, height and configuration"
+		if alone[0] == alone[1] && alone[1] == alone[2] {
+			why = fmt.Sprintf("a process that answers only this query always says %q: the answer depends on unrelated queries answered earlier in the process", alone[0])
+		}
+		lib.Violation(t, prop, "TestGenHistories", map[string]interface{}{"cfg": g.cfg, "query": q, "fresh_answers": as, "single_query_processes": alone, "driver_verdicts": g.drv[q.In]},
+			"%s(%s, h=%d): %d fresh processes with the same configuration disagree: %v; %s", q.Fn, short(q.In), q.H, len(as), as, why)
 	}
 }
 
@@ -643,6 +685,22 @@ func TestGenHistories(t *testing.T) {
 			}
 		}
 		g.fresh = freshAnswers(r, g.cfg, all, envInt("C19_R", 4))
+		// Fresh batches hold many unrelated queries. For drivers with structured signatures (hidden state would not be
+		// keyed by anything visible) a sample of queries is additionally answered by processes that answer nothing else.
+		var structured []Query
+		dup := map[string]bool{}
+		for _, q := range all {
+			if q.Fn == "checkSign" && !dup[q.key()] && isStructuredSig(q.In) {
+				dup[q.key()] = true
+				structured = append(structured, q)
+			}
+		}
+		r.Shuffle(len(structured), func(i, j int) { structured[i], structured[j] = structured[j], structured[i] })
+		for i := 0; i < len(structured) && i < envInt("C19_SINGLETONS", 6); i++ {
+			q := structured[i]
+			g.fresh[q.key()] = append(g.fresh[q.key()], ask(g.cfg, []Query{q})[0])
+			lib.Class("fresh/single_query_process")
+		}
 		// per-driver verdicts of every address (pure calls, one extra process)
 		var dq []Query
 		seen := map[string]bool{}
@@ -692,6 +750,22 @@ func TestGenHistories(t *testing.T) {
 						}
 						first[k] = f[0]
 					}
+				}
+				// structured signatures: verdict distribution, and how often a check that declares a sequence / lock time
+				// directly precedes (among the checks of that driver) one that declares none, and vice versa
+				prevDeclares := -1
+				for _, q := range run {
+					if q.Fn != "checkSign" || !isStructuredSig(q.In) {
+						continue
+					}
+					lib.Class("btcscript/checkSign=" + g.fresh[q.key()][0])
+					d := declaresDelay(q.In)
+					if prevDeclares == 1 && d == 0 {
+						lib.Class("btcscript/delay_declared_then_none")
+					} else if prevDeclares == 0 && d == 1 {
+						lib.Class("btcscript/none_then_delay_declared")
+					}
+					prevDeclares = d
 				}
 				for fn := range changes {
 					lib.Class("history/answer_changes_with_height/" + fn)
